@@ -9,7 +9,7 @@
    [cur_cmp]/[cur_unmap] (Model/MmapCfg.v) say what the current source compares the mmap result with and which
    length it passes to munmap; the two `_refuted` theorems are the same model with the former choices. *)
 From Coq Require Import NArith List Bool.
-Require Import SDS.Model.Mach SDS.Spec.AddrSpace SDS.Model.MmapCfg SDS.Model.Mmap SDS.Proofs.MmapProof.
+Require Import SDS.Model.Mach SDS.Spec.AddrSpace SDS.gen.MmapCfg SDS.Model.Mmap SDS.Proofs.MmapProof.
 Import ListNotations.
 Open Scope N_scope.
 
